@@ -1,10 +1,15 @@
 #!/bin/sh
-# usage: tools/selftest.sh <patch.diff> <check id>...   applies a patch to /repo, runs the quick checks, undoes it
+# usage: tools/selftest.sh <patch.diff> <check id>...
+# Applies a seeded change to a PRIVATE clone of /repo (never to /repo itself, so that other runs are not
+# disturbed), runs the quick checks against it through VERIF_REPO, removes the clone.
 P=$(readlink -f "$1"); shift
 cd /verif
-git -C /repo apply "$P" || { echo "patch does not apply"; exit 2; }
+T=$(mktemp -d /var/tmp/hidi-selftest.XXXXXX)
+trap 'rm -rf "$T"' EXIT
+rsync -a --exclude .git /repo/ "$T/repo/"
+(cd "$T/repo" && patch -p1 -s < "$P") || { echo "patch does not apply"; exit 2; }
 for c in "$@"; do
-  ./check "$c" quick > /tmp/selftest.$c.out 2>&1; rc=$?
-  echo "$c rc=$rc $(grep -c '^VIOLATION' /tmp/selftest.$c.out) violation lines; $(grep -m1 '^  predicate' /tmp/selftest.$c.out | cut -c1-160)"
+  VERIF_REPO="$T/repo" ./check "$c" quick > "$T/$c.out" 2>&1; rc=$?
+  echo "$c rc=$rc $(grep -c '^VIOLATION' "$T/$c.out") violation lines; $(grep -m1 '^  predicate' "$T/$c.out" | cut -c1-170)"
+  [ $rc -eq 2 ] && tail -5 "$T/$c.out"
 done
-git -C /repo checkout -- . && git -C /repo status --short | head -3
